@@ -390,6 +390,20 @@ func affineD(v ssa.Value, d int) (Affine, bool) {
 		}
 	case *ssa.UnOp:
 		if x.Op == token.MUL { // load
+			switch c := x.X.(type) {
+			case *ssa.Alloc:
+				if isIntegerType(x.Type()) {
+					if v, ok := cellValueAt(c, x); ok {
+						return affineD(v, d+1)
+					}
+				}
+			case *ssa.FreeVar:
+				if isIntegerType(x.Type()) {
+					if v, ok := capturedValue(c); ok {
+						return affineD(v, d+1)
+					}
+				}
+			}
 			return affSymOfPath(x.X), true
 		}
 		if x.Op == token.SUB {
